@@ -72,10 +72,28 @@ def repo_state():
 def load_known(prop):
     path = os.path.join(HERE, 'known_findings.json')
     if not os.path.exists(path):
-        return {}
+        return KnownMap()
     with open(path) as f:
         data = json.load(f)
-    return {e['key']: e for e in data.get('findings', []) if e.get('property') == prop}
+    return KnownMap((e['key'], e) for e in data.get('findings', []) if e.get('property') == prop)
+
+
+class KnownMap(dict):
+    """known-finding keys; a key ending in ':*' matches every observable of that mechanism."""
+
+    def _match(self, k):
+        if dict.__contains__(self, k):
+            return k
+        for pat in self.keys():
+            if pat.endswith('*') and k.startswith(pat[:-1]):
+                return pat
+        return None
+
+    def __contains__(self, k):
+        return self._match(k) is not None
+
+    def __getitem__(self, k):
+        return dict.__getitem__(self, self._match(k))
 
 
 def main(argv=None):
@@ -154,7 +172,7 @@ def main(argv=None):
         k = _key(mod, v)
         v['key'] = k
         if k in known:
-            listed.setdefault(k, []).append(v)
+            listed.setdefault(known._match(k), []).append(v)
         else:
             unlisted.append(v)
     # violation counters by key (includes those beyond the per-shard cap)
@@ -249,7 +267,8 @@ def main(argv=None):
         print('observed: ' + ' '.join('%s=%d' % kv for kv in list(cs.items())[:40]))
     for k in sorted(listed):
         print('KNOWN-FINDING: property=%s %s [%s; seen %d time(s), e.g. %s]' %
-              (prop, known[k]['what'], k, viol_keys.get(k, len(listed[k])), listed[k][0]['what'][:160]))
+              (prop, known[k]['what'], k, sum(n for kk, n in viol_keys.items() if known._match(kk) == k)
+               or len(listed[k]), listed[k][0]['what'][:160]))
     for k in sorted(known):
         if k not in listed:
             print('note: known finding %s not observed in this run' % k)
